@@ -47,6 +47,12 @@ def eligible(kind, order, args, kwargs):
     """Independent re-statement of when an exchange order accepts a cancel / update / replace."""
     st = order.status.name if order.status else None
     t = order.order_type.ORDER_TYPE.name
+    if order.EXCHANGE is not None and order.EXCHANGE.name == "BETDAQ":
+        if kind == "REPLACE":
+            return False  # no replace on Betdaq
+        if kind == "CANCEL" and (args[0] if args else kwargs.get("size_reduction")):
+            return False  # no partial cancel on Betdaq (update() is used instead)
+        return order.bet_id is not None and st == "EXECUTABLE" and t == "LIMIT"
     if order.bet_id is None or st != "EXECUTABLE":
         return False
     if kind == "CANCEL":
